@@ -51,6 +51,21 @@ CHECKS["C03"] = dict(
    note="Excluded exactly as the property states: angles within 0.01 rad of pi (nearest kept points pi-0.02..pi-0.18), shadow-set MRP inputs only for exp(log X)=X. Trusted: embedding doubles (mpmath self-test).",
 )
 
+CHECKS["C05"] = dict(
+   technique="TLA+ spec Jacobians.tla (so(3) closed forms in symbolic mu/nu proven by TLC to satisfy the dexp characterisation; se(3)/se_2(3) Jacobians characterised by J ad = Ad_exp - I and J k = k on ker ad with exact rational right-hand sides from screw-form elements; group-level quaternion kinematics as polynomial identities) model-checked by TLC; code Jacobians inserted into the exact equations",
+   category="model_checking",
+   text="For so(3) the code's J_l, J_r and inverses are compared entry-wise with closed forms that TLC proves to be the unique solution of J[x]x = R - I, Jx = x (and J J^-1 = I, J_l = R J_r). For se(3) and se_2(3) no closed form is trusted: the code's matrices must satisfy J_l ad = Ad_exp - I, J_r ad = I - Ad_exp(-xi), J k = k on the kernel (consistency of the system proven by TLC), J J^-1 = I, J_l = Ad J_r, J_r(xi) = J_l(-xi), at angles from 5e-4 rad to 5.4 rad incl. both sides of the Taylor switch and beyond pi, and exactly zero (J = I +- ad/2). Group-level quaternion (body/world) and MRP Jacobians must give q' = 1/2 q(x)(0,w), R' = R[w]x resp. [w]x R (through casadi.jacobian of the code's own to_Matrix) and q.q' = 0, with the polynomial identities proven by TLC for all lattice quaternions.",
+   design_ref="6/C05",
+   note="A matrix identity covers all perturbation directions by linearity, but only at lattice points x. Trusted: embedding doubles nu, mu (mpmath self-test).",
+)
+CHECKS["C06"] = dict(
+   technique="TLA+ spec SmallAngle.tla (half-angle lattice with both integer neighbours of every Taylor/closed-form switch on six axes, dyadic second-order enclosures down to denormals, exact zero, generators at the identity) model-checked by TLC; states replayed into exp/log/Jacobians and their casadi.jacobian",
+   category="model_checking",
+   text="TLC generates, for six axes, the two integer half-angle neighbours of every switch point (theta=1e-3, theta/2=1e-3, theta^2=1e-3, theta^2/4=1e-3, |mrp|^2=1e-3) and a logarithmic ladder 1 rad .. 2e-4 rad with exact closed-form expectations (same records as C02/C03/C05), dyadic vectors 2^-12 .. 2^-1074 with the sound enclosure |f - f2| <= |x|^3, and exactly zero. The code must be within 1e-9 on both sides of each switch (so no jump > 2e-9), inside every enclosure, finite at zero, and its AD derivatives must be finite at/around zero with D exp(0) = generators, D(log o exp)(0) = I, J(0) = I, d/dx to_Matrix(exp x) = [J_l e_i]x R.",
+   design_ref="6/C06",
+   note="Not a continuum sweep: about 105 (magnitude, axis) lattice points + 40 dyadic vectors; raw SERIES coefficients are compared with mpmath only as SPEC-DRIFT information.",
+)
+
 NOT_YET = {}
 
 ALL = [f"C{i:02d}" for i in range(1, 21)]
